@@ -132,12 +132,12 @@ type Pool struct {
 	New   func() any
 	mu    sync.Mutex
 	items []any
-	reg   bool
+	reg   int64 // execution in which the pool registered its reset
 }
 
 func (p *Pool) register() {
-	if !p.reg {
-		p.reg = true
+	if seq := vsched.ExecSeq() + 1; p.reg != seq {
+		p.reg = seq
 		vsched.OnReset(func() { p.mu.Lock(); p.items = nil; p.mu.Unlock() })
 	}
 }
